@@ -30,6 +30,20 @@ Two parts.
     fresh object is compared, as a multiset of (radius, value) pairs, with the
     image pixels within the largest radius (documented definition).
 
+(P) single-bad-pixel alphabet: exactly ONE pixel of the scene is bad -- True in
+    the user's mask, or a non-finite value of the data, or a non-finite value
+    of the error map -- and it is placed at EVERY position of the bounding
+    region of the largest circle (all covered pixels including the outermost
+    partially covered column / row on each of the four sides, plus one ring of
+    pixels outside the circle), for integer / half-integer / generic centres
+    (and two whose region is clipped by an image corner) x integer / fractional
+    / half-integer largest radius x method x class.  Same oracle as (C): the
+    independent masked aperture-photometry reference; a bad pixel outside the
+    largest circle must change nothing, one on the rim must be left out with
+    its partial weight.  A shortcut that decides from a neighbourhood of the
+    source whether the mask matters is judged at every boundary of that
+    neighbourhood.
+
 (A) explicit-state BFS (mcphot.explorer) over histories of
     normalize('max') / normalize('sum') / unnormalize() / first reads of
     profile, profile_error, data_profile and (CurveOfGrowth) array-valued
@@ -86,6 +100,20 @@ RULE = ('(C) full product: orientation {wide: 21 rows x 23 columns, tall: the tr
         'a case is non-trivial when the '
         'largest circle is cut by the image edge (true extent [-0.5, n-0.5]) or by masked pixels, or the radii are '
         'not uniform. '
+        '(P) single bad pixel, full product: centre {pix-int (11, 9), pix-half (11.5, 9.5), pix-generic (10.3, 11.8), '
+        'pix-lowcorner (2.3, 1.8), pix-highcorner (19.7, 18.2): the last two have the bounding region of the largest '
+        'circle clipped by the image} x radii list with largest radius {3 (integer), 3.4 (fractional), 3.5 '
+        '(half-integer: with an integer centre the circle touches a pixel edge); thorough: also 3.7 and 4.25 with '
+        'other inner radii} x position of the ONE bad pixel {every pixel of columns floor(xc - rmax) - 1 .. '
+        'ceil(xc + rmax) + 1 x rows floor(yc - rmax) - 1 .. ceil(yc + rmax) + 1 inside the image: every pixel the '
+        'largest circle meets, including the outermost partially covered column / row on all four sides, and a ring '
+        'of pixels outside it; the unit asserts that enclosure} x kind {that pixel True in an otherwise False user mask, '
+        'data NaN, data +inf, error-map NaN (no user mask in the last three); thorough: also data -inf, error +inf} x '
+        'method {exact, center, subpixel 5, subpixel 2} x class {CurveOfGrowth, RadialProfile} (image nonneg, error map '
+        'always given; quick: wide orientation, thorough: both orientations); every other pixel is unmasked and finite; '
+        'oracle as in (C) with the reference masking exactly that pixel; a (P) case is non-trivial when the bad pixel '
+        'has weight in the largest circle; the site of a violation names user-masked / non-finite and the position '
+        'class of the pixel relative to the largest circle (outside / rim / inside). '
         '(A) BFS over histories of normalize(max|sum)/unnormalize/first reads/(CurveOfGrowth) calc_ee_at_radius(all '
         'sampled radii)/calc_radius_at_ee(curve values on the strictly increasing prefix) from the full product of roots class '
         '{RadialProfile, CurveOfGrowth} x error map {yes, no} x units {no, yes} x image {positive (max>0, sum>0), '
@@ -108,6 +136,8 @@ ASSUMPTIONS = ['numpy, scipy PchipInterpolator are trusted; photutils.geometry k
                '__dict__ and public knots/coefficients x, c, extrapolate, axis); equal digests have equal futures',
                'non-finite pixels of the data or of the error map are documented to be masked automatically, with or '
                'without a user mask: the reference treats them exactly like user-masked pixels',
+               '(P): a single non-finite pixel of the data or of the error map anywhere in the image is masked automatically '
+               '(same documented rule), also when it lies outside every circle; the reference gives it weight 0',
                'the raw data profile (data_radius, data_profile) is, as documented, the set of image pixels whose centre lies '
                'within the largest radius, in unspecified order; whether masked / non-finite pixels appear in it is not '
                'specified (accepted either way)',
@@ -177,8 +207,38 @@ def _edge_centres():
 
 
 EDGE_CENTRES, EDGE_RADII = _edge_centres()
-ALL_CENTRES = dict(CENTRES, **EDGE_CENTRES)
-RADII_ALL = dict(RADII_THOROUGH, **{f'edge:{c}': r for c, r in EDGE_RADII.items()})
+
+# ---- (P) single-bad-pixel alphabet: ONE masked / non-finite pixel, at every position of the bounding region of the
+# largest circle.  Centres: integer / half-integer / generic in both coordinates (xc != yc, so x and y cannot be mixed
+# up unnoticed) and two generic centres whose bounding region is clipped by the low-left / high-right image corner.
+# Largest radius: integer / fractional / half-integer (with an integer centre the circle then touches a pixel edge);
+# thorough adds two more fractional ones.  With these centres frac(c +- rmax) takes the values 0, .5 and both open
+# halves (0, .5), (.5, 1) on the low AND on the high side in x and in y (listed by describe()).
+PIX_CENTRES = {'pix-int': (11.0, 9.0), 'pix-half': (11.5, 9.5), 'pix-generic': (10.3, 11.8),
+               'pix-lowcorner': (2.3, 1.8), 'pix-highcorner': (19.7, 18.2)}
+PIX_RADII = {'pix:int': [0, 1, 2, 3], 'pix:frac': [0, 1, 2, 3.4], 'pix:halfint': [0, 1, 2, 3.5]}
+PIX_RADII_THOROUGH = dict(PIX_RADII, **{'pix:frac2': [0, 1.3, 2.6, 3.7], 'pix:big': [0, 2, 4.25]})
+# what the single bad pixel is: True in the user's mask (all else False) / a non-finite value of the data (no user
+# mask) / a non-finite value of the error map at a pixel with finite data (no user mask)
+PIX_KINDS = {'mask': None, 'data-nan': float('nan'), 'data-inf': float('inf'), 'error-nan': float('nan')}
+PIX_KINDS_THOROUGH = dict(PIX_KINDS, **{'data-ninf': float('-inf'), 'error-inf': float('inf')})
+
+ALL_CENTRES = dict(CENTRES, **EDGE_CENTRES, **PIX_CENTRES)
+PRODUCT_CENTRES = list(CENTRES) + list(EDGE_CENTRES)          # centres of part (C)
+RADII_ALL = dict(RADII_THOROUGH, **{f'edge:{c}': r for c, r in EDGE_RADII.items()}, **PIX_RADII_THOROUGH)
+
+
+def pixel_region(cname, rname):
+    """Pixel positions (iy, ix) (wide scene) of the single bad pixel: the bounding region of the largest circle,
+    columns floor(xc - rmax) - 1 .. ceil(xc + rmax) + 1 and the same in y, clipped to the image.  It holds every
+    pixel the circle meets (the outermost partially covered column / row on all four sides: index round(c +- rmax),
+    which lies within floor(c - rmax) .. ceil(c + rmax)) and one more ring of pixels certainly outside it."""
+    ny, nx = SHAPE
+    xc, yc = ALL_CENTRES[cname]
+    rmax = float(RADII_ALL[rname][-1])
+    xs = range(max(int(math.floor(xc - rmax)) - 1, 0), min(int(math.ceil(xc + rmax)) + 1, nx - 1) + 1)
+    ys = range(max(int(math.floor(yc - rmax)) - 1, 0), min(int(math.ceil(yc + rmax)) + 1, ny - 1) + 1)
+    return [(iy, ix) for iy in ys for ix in xs]
 IMAGES = ('nonneg', 'signed', 'const', 'ring')
 MASKS = ('none', 'wedge')                          # the user's mask argument
 NONFINITE = ('none', 'data', 'error', 'both')      # which input carries non-finite pixels (documented: masked automatically)
@@ -242,6 +302,23 @@ def make_mask(case, data, error):
     yy, xx = np.mgrid[0:ny, 0:nx]
     xc, yc = ALL_CENTRES[cname]
     user = None
+    if case['mask'] == 'pixel':
+        # (P): exactly one bad pixel; everything else unmasked and finite
+        iy, ix = (int(v) for v in case['pixel'])
+        kind = case['badkind']
+        bad = np.zeros(SHAPE, bool)
+        bad[iy, ix] = True
+        if kind == 'mask':
+            return bad.copy(), data, error, bad
+        if kind.startswith('data-'):
+            data = data.copy()
+            data[iy, ix] = PIX_KINDS_THOROUGH[kind]
+        elif kind.startswith('error-') and error is not None:
+            error = error.copy()
+            error[iy, ix] = PIX_KINDS_THOROUGH[kind]
+        else:
+            raise ValueError(kind)
+        return None, data, error, bad
     if case['mask'] == 'wedge':
         ang = np.arctan2(yy - yc, xx - xc)
         user = (ang > 0.3) & (ang < 1.4) & (np.hypot(xx - xc, yy - yc) > 1.2)
@@ -410,7 +487,20 @@ def check_profile(acc, case, seed, refs):
     V, tV = np.array(V), np.array(tV)
     site0 = f'{case["cls"]}:{METHODS[case["method"]][0]}'
     nf = case.get('nonfinite', 'none')
-    if nf != 'none':
+    if case['mask'] == 'pixel':
+        # (P) the single bad pixel: how it is bad (user mask / automatically masked non-finite value) and where it lies
+        # relative to the LARGEST circle (reference weights): outside, fully inside, or on the partially covered rim
+        iy, ix = case['pixel'] if orient_of(case) == 'wide' else case['pixel'][::-1]
+        w, amb = ref.w(radii[-1])
+        where = ('outside' if (w[iy, ix] == 0 and amb[iy, ix] == 0) else
+                 ('inside' if w[iy, ix] >= 1 - 1e-12 else 'rim'))
+        acc.counters['single_pixel_cases'] += 1
+        acc.counters[f'single_pixel_cases_pixel_{where}_largest_circle'] += 1
+        cov = np.nonzero((w > 0) | (amb > 0))
+        if cov[0].size and (iy in (cov[0].min(), cov[0].max()) or ix in (cov[1].min(), cov[1].max())) and where != 'outside':
+            acc.counters['single_pixel_cases_pixel_in_an_extreme_covered_row_or_column'] += 1
+        pred = f'single-{"masked" if case["badkind"] == "mask" else "non-finite"}-pixel:{where}'
+    elif nf != 'none':
         # which input is non-finite and whether a user mask is present as well (the automatic masking takes a
         # different path through the mask combination then)
         pred = f'nonfinite-{nf}' + ('' if case['mask'] == 'none' else f'+usermask-{case.get("cover")}')
@@ -902,6 +992,25 @@ def product_cases(tier, cname, mname, orient='wide'):
                                    'unit': un, 'orient': orient}
 
 
+def pixel_axes(tier):
+    """(P) axes of a tier: quick = wide orientation x 3 largest radii x 4 kinds; thorough = both orientations x 5 x 6."""
+    if tier == 'thorough':
+        return ORIENTS, list(PIX_RADII_THOROUGH), list(PIX_KINDS_THOROUGH)
+    return ('wide',), list(PIX_RADII), list(PIX_KINDS)
+
+
+def pixel_cases(tier, cname, mname, rname, orient='wide'):
+    """(P) full product pixel position x kind x class for one (centre, method, radii list, orientation): image
+    'nonneg', error map always given (so the error columns are judged and a non-finite error pixel exists)."""
+    kinds = pixel_axes(tier)[2]
+    for iy, ix in pixel_region(cname, rname):
+        for kind in kinds:
+            for cls in ('cog', 'rp'):
+                yield {'kind': 'profile', 'cls': cls, 'image': 'nonneg', 'centre': cname, 'radii': rname,
+                       'mask': 'pixel', 'badkind': kind, 'pixel': [iy, ix], 'nonfinite': 'none', 'cover': '-',
+                       'error': 'map', 'method': mname, 'unit': False, 'orient': orient}
+
+
 def roots_for(tier):
     """thorough: the full product of all root axes (120); quick: geometry 'inside' x all other axes (40) + the two
     corner geometries x class x error map x image with units off (40) -- units and geometry act on disjoint code."""
@@ -911,9 +1020,15 @@ def roots_for(tier):
 def plan(tier, seed):
     units = []
     for orient in ORIENTS:
-        for cname in ALL_CENTRES:
+        for cname in PRODUCT_CENTRES:
             for mname in METHODS:
                 units.append({'kind': 'product', 'centre': cname, 'method': mname, 'orient': orient})
+    orients, rnames, _ = pixel_axes(tier)
+    for orient in orients:
+        for cname in PIX_CENTRES:
+            for rname in rnames:
+                for mname in METHODS:
+                    units.append({'kind': 'pixel', 'centre': cname, 'method': mname, 'radii': rname, 'orient': orient})
     for root in roots_for(tier):
         nops = 6 if ROOTS[root]['cls'] == 'rp' else 7        # = len(HSystem.ops) of the quick tier
         nops += 1 if tier == 'thorough' else 0
@@ -928,6 +1043,21 @@ def run_unit(unit, tier, seed):
         orient = unit.get('orient', 'wide')
         refs = {(unit['centre'], unit['method'], orient): Ref(unit['centre'], unit['method'], orient)}
         for case in product_cases(tier, unit['centre'], unit['method'], orient):
+            check_profile(acc, case, seed, refs)
+    elif unit['kind'] == 'pixel':
+        orient = unit['orient']
+        ref = Ref(unit['centre'], unit['method'], orient)
+        refs = {(unit['centre'], unit['method'], orient): ref}
+        # the enumerated region must hold every pixel the largest circle meets plus pixels outside it on each side
+        # that is not cut off by the image (harness error otherwise: the space would not be the stated one)
+        region = pixel_region(unit['centre'], unit['radii'])
+        w, amb = weights(SHAPE, *ALL_CENTRES[unit['centre']], float(RADII_ALL[unit['radii']][-1]), 'exact')
+        inreg = np.zeros(SHAPE, bool)
+        for iy, ix in region:
+            inreg[iy, ix] = True
+        if ((w > 0) & ~inreg).any() or not ((w == 0) & inreg).any():
+            raise RuntimeError(f'{unit}: pixel region does not enclose the largest circle')
+        for case in pixel_cases(tier, unit['centre'], unit['method'], unit['radii'], orient):
             check_profile(acc, case, seed, refs)
     else:
         sysm = HSystem(unit['root'], seed, tier)
@@ -965,6 +1095,24 @@ def replay(case, seed):
     return acc
 
 
+def _describe_pixel(tier):
+    orients, rnames, kinds = pixel_axes(tier)
+    fr = {}
+    for c, (xc, yc) in PIX_CENTRES.items():
+        for rn in rnames:
+            r = float(RADII_ALL[rn][-1])
+            fr[f'{c} x {rn}'] = {'pixels': len(pixel_region(c, rn)),
+                                 'frac(xc-r), frac(xc+r), frac(yc-r), frac(yc+r)':
+                                     [round(v % 1.0, 10) for v in (xc - r, xc + r, yc - r, yc + r)]}
+    return {'centres (x, y)': {k: list(v) for k, v in PIX_CENTRES.items()},
+            'radii lists (CurveOfGrowth drops the leading 0)': {k: RADII_ALL[k] for k in rnames},
+            'kinds of the one bad pixel': kinds, 'orientations': list(orients), 'methods': list(METHODS),
+            'classes': ['CurveOfGrowth', 'RadialProfile'], 'image': 'nonneg', 'error': 'map',
+            'pixel positions': 'every pixel of columns floor(xc-rmax)-1 .. ceil(xc+rmax)+1 x rows floor(yc-rmax)-1 .. '
+                               'ceil(yc+rmax)+1 inside the image',
+            'per centre x radii list': fr}
+
+
 def describe(tier, seed):
     return {'alphabet': {'orientation -> image shape (ny, nx)': {o: list(shape_of(o)) for o in ORIENTS},
                          'orientation tall': 'the wide scene transposed (data.T, error.T, mask.T, centre (yc, xc)); centre names '
@@ -984,6 +1132,7 @@ def describe(tier, seed):
                          'non-finite data pixels (dy, dx from the pixel nearest the centre)': [[list(o), repr(v)] for o, v in BAD_DATA],
                          'non-finite error pixels (finite data there)': [[list(o), repr(v)] for o, v in BAD_ERROR],
                          'error': list(ERRORS), 'methods': list(METHODS),
+                         'single bad pixel (P)': _describe_pixel(tier),
                          'classes': ['CurveOfGrowth', 'RadialProfile'], 'units': 'on/off for method exact x image nonneg'},
             'bound': {'history depth': h_depth(tier), 'roots': roots_for(tier),
                       'root geometry (ny, nx), (xc, yc); radii 0..5': {g: [list(v[0]), list(v[1])] for g, v in H_GEOM.items()},
